@@ -139,6 +139,35 @@ pub fn c18_mark_header(s: &mut Src) {
     finish(s, &st, did, "marked");
 }
 
+/// In-header mark bit after an odd number of collections: `on_global_release` has flipped the
+/// marked state to 0, so marking is the transition 1 -> 0.
+pub fn c18_mark_header_flipped(s: &mut Src) {
+    let mut o = Obj(s.any_bytes::<64>());
+    let p = o.0.as_mut_ptr();
+    let st = setup(s, p as usize + 8, unsafe { p.add(8) }, 2, 1, 0);
+    let mut ms = MarkState::new();
+    ms.on_global_release::<VmH>();
+    let was_marked = st.init_field == 0;
+    unsafe { ENV.as_mut().unwrap().active = false };
+    chk!(s, "after the flip is_marked reads the flipped state", ms.is_marked::<VmH>(st.obj) == was_marked);
+    unsafe { ENV.as_mut().unwrap().active = true };
+    let did = ms.test_and_mark::<VmH>(st.obj);
+    finish(s, &st, did, "marked");
+}
+/// Side mark bit: `on_global_release` does not flip the state (the bits are bulk-zeroed instead).
+pub fn c18_mark_side_after_release(s: &mut Src) {
+    let mut o = Obj(s.any_bytes::<64>());
+    let mut win = Win::<16>(s.any_bytes::<16>());
+    let base = o.0.as_mut_ptr() as usize;
+    win.install(&side_spec_of(<VmA as VMBinding>::VMObjectModel::LOCAL_MARK_BIT_SPEC.as_spec()), base);
+    let idx = s.any_in(0, 7);
+    let st = setup(s, base + 8 * idx, win.0.as_mut_ptr(), idx as u8, 0, 1);
+    let mut ms = MarkState::new();
+    ms.on_global_release::<VmA>();
+    let did = ms.test_and_mark::<VmA>(st.obj);
+    finish(s, &st, did, "marked");
+}
+
 // ---------------------------------------------------------------- log bit (object barrier)
 
 pub struct Sem<VM: VMBinding>(core::marker::PhantomData<VM>);
@@ -235,6 +264,8 @@ pub fn c18_pin_side_deep(s: &mut Src) {
 harnesses! {
     #[kani::unwind(6)] #[kani::stub(alloc::fmt::format, crate::env::stub_format)] c18_mark_side; // timeout=900
     #[kani::unwind(6)] #[kani::stub(alloc::fmt::format, crate::env::stub_format)] c18_mark_header; // timeout=900
+    #[kani::unwind(6)] #[kani::stub(alloc::fmt::format, crate::env::stub_format)] c18_mark_header_flipped; // timeout=900
+    #[kani::unwind(6)] #[kani::stub(alloc::fmt::format, crate::env::stub_format)] c18_mark_side_after_release; // timeout=900
     #[kani::unwind(6)] #[kani::stub(alloc::fmt::format, crate::env::stub_format)] c18_log_side; // timeout=900
     #[kani::unwind(6)] #[kani::stub(alloc::fmt::format, crate::env::stub_format)] c18_log_header; // timeout=900
     #[kani::unwind(6)] #[kani::stub(alloc::fmt::format, crate::env::stub_format)] c18_pin_side; // timeout=900 features=object_pinning
